@@ -537,7 +537,8 @@ func TestVfC17ServerName(t *testing.T) {
 		snis, hosts = nil, nil
 		mu.Unlock()
 		opt := upstream.Opt{DialAddr: dial, DialTimeout: time.Second}
-		if answering {
+		// not verifying the peer changes nothing about how it is addressed: the server name is still the URL's
+		if answering || rapid.Bool().Draw(t, "insecureSkipVerify") {
 			opt.TLSConfig = &tls.Config{InsecureSkipVerify: true}
 		}
 		u, err := upstream.NewUpstream(url, opt)
